@@ -641,4 +641,31 @@ example : ∀ op ∈ [Op.T ((90 : ℝ) : ℂ) ((0 : ℝ) : ℂ), Op.E ((10 : ℝ
   · exact Bounded.S 1
   · exact Bounded.Spoiler
 
+/-- **why the rejection of negative decay times (C20) is needed for the bound of C14**: with `τ < 0` relaxation
+    amplifies every non-zero transverse state, by `exp(-2τ/T2) > 1` -/
+theorem E_negative_time_amplifies (τ T1 T2 g : ℝ) (h2 : 0 < T2) (hτ : τ < 0) (s : SM ℂ) (k : ℤ)
+    (hk : (s.get k).fp ≠ 0) :
+    normSq (s.get k).fp < normSq ((applyOp {} (.E (τ : ℂ) (T1 : ℂ) (T2 : ℂ) (g : ℂ)) s).get k).fp := by
+  simp only [applyOp, get_scalApply]
+  have hT2 : (T2 : ℂ) ≠ 0 := by exact_mod_cast h2.ne'
+  have hrT : (Ex.eval (envOf [(τ : ℂ), (T1 : ℂ), (T2 : ℂ), (g : ℂ)]) Coeff.E.rT).re = τ / T2 := by
+    simp [Coeff.E.rT, Coeff.two_pi_i, Ex.eval, envOf]
+    field_simp
+  have hB0 : Ex.eval (envOf [(τ : ℂ), (T1 : ℂ), (T2 : ℂ), (g : ℂ)]) (Coeff.E.arr0 0) = 0 := by
+    simp [Coeff.E.arr0, Ex.eval]
+  have hA0 : 1 < normSq (Ex.eval (envOf [(τ : ℂ), (T1 : ℂ), (T2 : ℂ), (g : ℂ)]) (Coeff.E.arr 0)) := by
+    simp only [Coeff.E.arr, Ex.eval, conj_C, expc_C]
+    rw [Complex.normSq_conj, normSq_eq_norm_sq, Complex.norm_exp]
+    simp only [neg_re, hrT]
+    have : 0 < -(τ / T2) := by
+      have : τ / T2 < 0 := div_neg_of_neg_of_pos hτ h2
+      linarith
+    have h1 : 1 < Real.exp (-(τ / T2)) := by rw [Real.one_lt_exp_iff]; exact this
+    nlinarith
+  show normSq (s.get k).fp < normSq (Ex.eval (envOf [(τ : ℂ), (T1 : ℂ), (T2 : ℂ), (g : ℂ)]) (Coeff.E.arr 0) * (s.get k).fp
+    + Ex.eval (envOf [(τ : ℂ), (T1 : ℂ), (T2 : ℂ), (g : ℂ)]) (Coeff.E.arr0 0) * (s.geq k).fp)
+  rw [hB0, zero_mul, add_zero, normSq_mul]
+  have hpos : 0 < normSq (s.get k).fp := normSq_pos.mpr hk
+  nlinarith
+
 end EpgVerif.Props.C14
